@@ -34,14 +34,14 @@ TRIGGERS = {1: "C16.removed_account_residue", 2: "C16.create_over_storage", 3: "
 OUTSIDE_CONTRACT = 4
 
 
-def evaluate(ctx, vh, args):
-    out_dir = os.path.join(ctx.scratch, "c16")
+def evaluate(ctx, vh, args, sub="c16"):
+    out_dir = os.path.join(ctx.scratch, sub)
     os.makedirs(out_dir, exist_ok=True)
-    rc, out = sh([vh, "c16", "-out", out_dir] + args, timeout=1800)
+    rc, out = sh([vh, sub, "-out", out_dir] + args, timeout=1800)
     if rc != 0:
-        raise Broken("C16 harness run failed", out[-3000:])
-    rep = json.load(open(os.path.join(out_dir, "c16_report.json")))
-    cases = json.load(open(os.path.join(out_dir, "c16_cases.json")))
+        raise Broken("C16 harness run (%s) failed" % sub, out[-3000:])
+    rep = json.load(open(os.path.join(out_dir, sub + "_report.json")))
+    cases = json.load(open(os.path.join(out_dir, sub + "_cases.json")))
     with ThreadPoolExecutor(max_workers=8) as ex:
         results = list(ex.map(lambda f: common.coqc_file(f, cwd=out_dir), rep["files"]))
     mm, sm, pv, ng, cc = [], [], [], 0, []
@@ -60,13 +60,29 @@ def evaluate(ctx, vh, args):
 
 
 def case_payload(c, step):
-    return {"start": c["Start"], "ops": c["Ops"][: step + 1], "tag": c.get("Tag", ""),
-            "adapter_answers": c["Impl"][: step + 1], "reference_answers": c["Ref"][: step + 1], "first_bad_step": step}
+    d = {"start": c["Start"], "ops": c["Ops"][: step + 1], "tag": c.get("Tag", ""),
+         "adapter_answers": c["Impl"][: step + 1], "reference_answers": c["Ref"][: step + 1], "first_bad_step": step}
+    if "Txs" in c:   # a bytecode scenario: the recorded interface calls above, plus the transactions that produced them
+        d.update({"kind_of_case": "evm-bytecode-scenario", "codes": c.get("Codes"), "txs": c["Txs"],
+                  "adapter_results": c.get("ImplRes"), "reference_results": c.get("RefRes"),
+                  "how": "vh c16evm re-generates it from the seed; the recorded interface-call trace replays through ./check replay"})
+    return d
 
 
-def judge(ctx, rep, cases, mm, sm, pv, cc):
+def judge(ctx, rep, cases, mm, sm, pv, cc, prefix=""):
     found_input = False
     pv_cases = {ci: (st, cl) for (ci, st, cl) in pv}
+    # bytecode scenarios: a transaction-level difference (gas used, error, return data, logs, panic)
+    # must come with a state-answer difference inside a known-defect region
+    for d in rep.get("tx_differences") or []:
+        ci = d.get("case")
+        st, cl = pv_cases.get(ci, (0, 0))
+        if cl in TRIGGERS and common.known(ctx.prop, TRIGGERS[cl]):
+            continue
+        found_input = True
+        if ctx.violations < 3:
+            ctx.violation(prefix + "tx_%s" % ci, dict(case_payload(cases[ci], st), cls=cl, tx_difference=d,
+                          kind="transaction-result-differs-from-go-ethereum-state"))
     # (i) vs (ii): the property itself, on the implementations
     for (ci, st, cl) in pv:
         if cl == OUTSIDE_CONTRACT:
@@ -75,7 +91,7 @@ def judge(ctx, rep, cases, mm, sm, pv, cc):
             continue
         found_input = True
         if ctx.violations < 3:
-            ctx.violation("diff_%d" % ci, dict(case_payload(cases[ci], st), cls=cl,
+            ctx.violation(prefix + "diff_%d" % ci, dict(case_payload(cases[ci], st), cls=cl,
                           kind="adapter-answer-differs-from-go-ethereum-state", how="./check replay <this file>"))
     # (i) vs (iii): inside a known-defect region the comparison is one-sided (the implementation may
     # behave like the defective model, or like the reference)
@@ -89,7 +105,7 @@ def judge(ctx, rep, cases, mm, sm, pv, cc):
             # neither the reference behaviour nor the recorded defective behaviour
             found_input = True
             if ctx.violations < 3:
-                ctx.violation("region_%d" % ci, dict(case_payload(cases[ci], st), cls=cl,
+                ctx.violation(prefix + "region_%d" % ci, dict(case_payload(cases[ci], st), cls=cl,
                               kind="behaviour-inside-known-defect-region-is-neither-reference-nor-recorded-defect"))
             continue
         bad_mm.append((ci, st))
@@ -133,10 +149,10 @@ def run(ctx):
         "reverts": rep["reverts"], "max_snapshot_depth": rep["max_snapshot_depth"],
         "adapter_panics": rep["impl_panics"],
         "guarded_cases": ng,
-        "cases_by_first_class": {str(k): sum(1 for x in cc if x == k) for k in range(5)},
+        "cases_by_first_class": {str(k): sum(1 for x in cc if x == k) for k in range(6)},
         "adapter_model_mismatches": len(mm), "spec_model_mismatches": len(sm),
         "adapter_vs_reference_differences": len(pv),
-        "adapter_vs_reference_by_class": {str(k): sum(1 for x in pv if x[2] == k) for k in range(5)},
+        "adapter_vs_reference_by_class": {str(k): sum(1 for x in pv if x[2] == k) for k in range(6)},
         "samples": rep["samples"],
         "explanation": "theorems of props/C16.v re-checked; every generated sequence run on the real vm.CommitStateDB (over a real "
                        "storage.State with keeper, balance and contract stores) and on go-ethereum state.StateDB; EvmAdapter.v and "
@@ -144,7 +160,38 @@ def run(ctx):
                        "regions), spec vs go-ethereum (must be 0), adapter vs go-ethereum = the property monitor, each difference "
                        "classified by the Coq-defined trigger predicates evaluated along the adapter model run",
     })
-    judge(ctx, rep, cases, mm, sm, pv, cc)
+    pending = None
+    try:
+        judge(ctx, rep, cases, mm, sm, pv, cc)
+    except Broken as b:
+        pending = b
+    # generated bytecode programs run as transaction sequences through /repo/vm ApplyMessage + go-ethereum's
+    # interpreter over (i) the adapter and (ii) go-ethereum's state, every interface call recorded
+    if ctx.tier == "thorough":
+        eargs = ["-seed", str(ctx.seed), "-n", "600", "-shard", "40"]
+    else:
+        eargs = ["-seed", str(ctx.seed), "-n", "60", "-shard", "20"]
+    erep, ecases, emm, esm, epv, eng, ecc = evaluate(ctx, vh, eargs, sub="c16evm")
+    cov["evm"] = {
+        "scenarios": erep["cases"], "transactions": erep["txs"], "recorded_interface_calls": erep["steps"],
+        "themes": erep.get("themes"), "opcode_features": erep.get("opcode_features"),
+        "tx_outcomes_adapter": erep.get("tx_outcomes"), "tx_outcomes_reference": erep.get("tx_outcomes_ref"),
+        "tx_differences": len(erep.get("tx_differences") or []), "trace_divergence": erep.get("trace_divergence"),
+        "guarded_scenarios": eng, "adapter_model_mismatches": len(emm), "spec_model_mismatches": len(esm),
+        "adapter_vs_reference_by_class": {str(k): sum(1 for x in epv if x[2] == k) for k in range(6)},
+        "explanation": "each scenario = 2-6 transactions (message calls and contract creations over generated bytecode: storage, "
+                       "nested calls with value, reverting / out-of-gas callees, CREATE/CREATE2, SELFDESTRUCT, logs, precompiles incl. "
+                       "RIPEMD) executed by /repo/vm ApplyMessage with go-ethereum's interpreter on both state databases through a "
+                       "recording wrapper; per transaction gas used, error, return data and logs are compared, and the recorded "
+                       "call/answer traces go through the same three-way comparison as the generated operation sequences",
+    }
+    cov["evaluations"] = rep["cases"] + erep["cases"]
+    cov["traces_validated_against_impl"] = rep["cases"] + erep["cases"]
+    if erep.get("trace_divergence"):
+        raise Broken("the interpreter issued different calls on the two state databases after identical answers", str(erep["trace_divergence"]))
+    judge(ctx, erep, ecases, emm, esm, epv, ecc, prefix="evm_")
+    if pending is not None and ctx.violations == 0:
+        raise pending
     if broken is not None and ctx.violations == 0:
         raise broken
 
@@ -155,6 +202,11 @@ def replay(ctx, rp):
     if not ok:
         raise Broken("model does not build", log[-2000:])
     tmp = os.path.join(ctx.scratch, "one.json")
+    if rp.get("kind_of_case") == "evm-bytecode-scenario":
+        print("a bytecode scenario: its recorded interface-call trace uses addresses/codes outside the small universe of the "
+              "operation-sequence harness; re-run `vh c16evm -seed %s` (same tier) to reproduce it" % rp.get("seed"))
+        ctx.violation("evm_replay", dict(rp, note="re-run vh c16evm with the recorded seed"))
+        return
     json.dump([{"Start": rp["start"], "Ops": rp["ops"]}], open(tmp, "w"))
     rep, cases, mm, sm, pv, ng, cc = evaluate(ctx, vh, ["-n", "0", "-nodirected", "-corpus", tmp])
     print("adapter-model mismatches (case, step, class)", mm, "spec mismatches", sm,
